@@ -90,12 +90,16 @@ def re_flags(rx):
     return f
 
 
+_ALL_HIGH = ''.join(chr(c) for c in range(0x80, 0x110000) if not 0xD800 <= c <= 0xDFFF)
+
+
 def re_high(rx):
     def f():
         r = getattr(marshal, rx)
-        # non-ASCII samples incl. unicode digits/letters: all must be flagged
-        samples = [0x100, 0x391, 0x663, 0xb2, 0x4e2d, 0x1d7d8, 0xff11, 0x2460, 0x10ffff]
-        return coq_bool(all(r.search(chr(c)) is not None for c in samples))
+        # EVERY code point above 0x7f (the whole of Unicode, surrogates excepted) must be flagged by the
+        # "invalid character" class: remove what the regex flags and see what is left (complete enumeration)
+        left = r.sub('', _ALL_HIGH)
+        return coq_bool(left == '')
     return f
 
 
